@@ -123,24 +123,66 @@ func symBinop(op token.Token, t types.Type, x, y value) value {
 func intBinop(op token.Token, k types.BasicKind, x, y value) value {
 	a := lift(k, x)
 	b := lift(k, y)
-	iv := func(t *Term) value { return &symv{k, wrapInt(k, t)} }
+	iv := func(t *Term) value { return &symv{k, theEngine.named(wrapInt(k, t))} }
 	bl := func(o string, p, q *Term) value { return &symv{types.Bool, mkBool(o, p, q)} }
+	w, signed := kindInfo(k)
+	// operands are in range (invariant of Int mode), so a sum or difference is off by at
+	// most one modulus: an ite is far easier for the solver than mod
+	wrap1 := func(t *Term) value {
+		if t.op == "const" {
+			return iv(t)
+		}
+		m := intConstBig(pow2[w])
+		if signed {
+			hi := intConstBig(pow2[w-1])
+			lo := intConstBig(new(big.Int).Neg(pow2[w-1]))
+			return &symv{k, theEngine.named(tite(mkBool(">=", t, hi), mkInt("-", t, m), tite(mkBool("<", t, lo), mkInt("+", t, m), t)))}
+		}
+		return &symv{k, theEngine.named(tite(mkBool(">=", t, m), mkInt("-", t, m), tite(mkBool("<", t, intConst(0)), mkInt("+", t, m), t)))}
+	}
 	switch op {
 	case token.ADD:
-		return iv(mkInt("+", a, b))
+		return wrap1(mkInt("+", a, b))
 	case token.SUB:
-		return iv(mkInt("-", a, b))
+		return wrap1(mkInt("-", a, b))
 	case token.MUL:
-		return iv(mkInt("*", a, b))
+		prod := mkInt("*", a, b)
+		res := iv(prod).(*symv)
+		if res.t.op == "var" && signed {
+			x := theEngine.X
+			if x.mulOrigin == nil {
+				x.mulOrigin = map[*Term][2]*Term{}
+			}
+			x.mulOrigin[res.t] = [2]*Term{a, b}
+			// lemma (true in arithmetic): an in-range product is not changed by wrap-around
+			x.addPC(tor(tnot(inRangeInt(prod, w)), teq(res.t, prod)))
+		}
+		return res
 	case token.QUO, token.REM:
 		if theEngine.decide(teq(b, intConst(0))) {
 			panic(runtimeErrString("integer divide by zero"))
 		}
 		q, r := theEngine.truncDiv(a, b)
-		if op == token.QUO {
-			return iv(q)
+		if o, ok := theEngine.X.mulOrigin[a]; ok && signed && (o[0] == b || o[1] == b) {
+			// Lemmas for the overflow idiom `c := x*y; c/y != x` (true in arithmetic for y != 0):
+			//   x*y in range  =>  c/y == x and c%y == 0
+			//   x*y out of range  =>  c/y != x   (else |c - x*y| = |r| < |y| <= 2^63 < 2^64)
+			other := o[0]
+			if o[0] == b {
+				other = o[1]
+			}
+			in := inRangeInt(mkInt("*", o[0], o[1]), w)
+			theEngine.X.addPC(tand(tor(tnot(in), tand(teq(q, other), teq(r, intConst(0)))), tor(in, tnot(teq(q, other)))))
 		}
-		return iv(r)
+		if op == token.QUO {
+			if signed {
+				// only MinInt / -1 leaves the range
+				hi := intConstBig(pow2[w-1])
+				return &symv{k, theEngine.named(tite(teq(q, hi), intConstBig(new(big.Int).Neg(pow2[w-1])), q))}
+			}
+			return &symv{k, q}
+		}
+		return &symv{k, r}
 	case token.EQL:
 		return &symv{types.Bool, teq(a, b)}
 	case token.NEQ:
@@ -160,6 +202,16 @@ func intBinop(op token.Token, k types.BasicKind, x, y value) value {
 // truncDiv introduces fresh q, r with a = q*b + r, |r| < |b|, sign(r) in {0, sign(a)}
 // (Go's truncated division), as path constraints.
 func (e *Engine) truncDiv(a, b *Term) (q, r *Term) {
+	key := [2]*Term{a, b}
+	if c, ok := e.X.divCache[key]; ok {
+		return c[0], c[1]
+	}
+	defer func() {
+		if e.X.divCache == nil {
+			e.X.divCache = map[[2]*Term][2]*Term{}
+		}
+		e.X.divCache[key] = [2]*Term{q, r}
+	}()
 	q = e.freshAux()
 	r = e.freshAux()
 	zero := intConst(0)
@@ -212,6 +264,10 @@ func symUnop(op token.Token, x *symv) value {
 		case sFP:
 			return &symv{x.kind, mkFP("fp.neg", x.t)}
 		case sInt:
+			if w, signed := kindInfo(x.kind); signed {
+				lo := intConstBig(new(big.Int).Neg(pow2[w-1]))
+				return &symv{x.kind, tite(teq(x.t, lo), lo, mkInt("-", x.t))}
+			}
 			return &symv{x.kind, wrapInt(x.kind, mkInt("-", x.t))}
 		}
 		return &symv{x.kind, mkBV("bvneg", x.t.w, x.t)}
@@ -291,4 +347,19 @@ func fpInIntRange(f *Term, w int, signed bool) *Term {
 	}
 	hiF, _ := new(big.Float).SetInt(pow2[w]).Float64()
 	return tand(mkBool("fp.gt", f, fpConst(-1)), mkBool("fp.lt", f, fpConst(hiF)))
+}
+
+// named gives a compound Int term a name (fresh auxiliary constant equal to it) so
+// that later formulas stay small; constants and variables are returned unchanged.
+func (e *Engine) named(t *Term) *Term {
+	if t.op == "const" || t.op == "var" {
+		return t
+	}
+	v := e.freshAux()
+	e.X.addPC(teq(v, t))
+	return v
+}
+
+func inRangeInt(t *Term, w int) *Term {
+	return tand(mkBool("<=", intConstBig(new(big.Int).Neg(pow2[w-1])), t), mkBool("<", t, intConstBig(pow2[w-1])))
 }
